@@ -565,7 +565,7 @@ def gen(rng, tier):
     depth = 3 if tier == "quick" else 5
     for n in range(1, depth + 1):
         for word in itertools.product(range(len(alpha)), repeat=n):
-            if tier == "quick" and n == depth and rng.random() > 0.3:
+            if tier == "quick" and n == depth and rng.random() > 0.2:
                 continue
             if tier != "quick" and n == 4 and rng.random() > 0.4:
                 continue
@@ -703,7 +703,7 @@ SPEC = Spec(
     histogram=lambda c, o: "long-history" if c.get("kind") == "wrap" else
     ("switch:" if "I0:sw" in o or "I1:sw" in o else "") + ("lost" if " |up=F" in o else "up") + (":fatal" if "UnknownRemoteError" in o else ""),
     case_timeout=120.0,
-    rule="every history of length <= 2, 30% of length 3 (quick) / <= 3, 40% of length 4, 1% of length 5 (thorough) over a "
+    rule="every history of length <= 2, 20% of length 3 (quick) / <= 3, 40% of length 4, 1% of length 5 (thorough) over a "
          "17-letter alphabet (incl. cancelling call 0) (calls of each responder kind incl. subclass-of-declared and fatal declared errors, with and "
          "without a re-entrant follow-up call from their callback/errback, from either peer; deliver one box in either direction; "
          "fire the oldest pending responder with success / subclass error / undeclared error; loss in the middle of the next box), plus "
